@@ -72,6 +72,13 @@ EXTRA_MOLS.update({
     'ez-to-centre-cis': [('O', None, 0, '', None), ('C', 0, 1, '', 'S'), ('F', 1, 1, '', None), ('N', 1, 1, '', None), ('C', 1, 1, '', None),
                          ('C', 4, 2, '/', None), ('Cl', 5, 1, '\\', None)],
 })
+EXTRA_MOLS.update({
+    # the slash stands directly behind TWO consecutive branches of one atom (tert-butyl on a marked double bond)
+    'tbu-ez': [('C', None, 0, '', None), ('C', 0, 1, '', None), ('C', 1, 1, '', None), ('C', 1, 1, '', None), ('C', 1, 1, '/', None),
+               ('C', 4, 2, '', None), ('C', 5, 1, '/', None), ('C', 6, 1, '', None)],
+    'tbu-ez-cis': [('O', None, 0, '', None), ('C', 0, 1, '', None), ('F', 1, 1, '', None), ('Cl', 1, 1, '', None), ('C', 1, 1, '/', None),
+                   ('C', 4, 2, '', None), ('N', 5, 1, '\\', None)],
+})
 MOLS = dict(gr.STEREO_MOLS)
 MOLS.update(EXTRA_MOLS)
 
